@@ -141,7 +141,8 @@ FAMILIES = {
     # name: (cfg, what, GOMAXPROCS values each scenario is run with, quick sample size)
     "focus": ("Step_focus.cfg", "membership churn incl. redundant Unsubscribe (twice, nil, stray channel): edge cover", (0,), 700),
     "busy": ("Step_busy.cfg", "Subscribe / Unsubscribe issued while the event loop is held up by a full blocking distributor, "
-             "then Publish: edge cover per configuration", (1, 4), 450),
+             "then Publish, until everybody receives: complete scenarios of the edge cover per configuration; repeated because "
+             "the event loop's select chooses at random among the buffered request and the pending publications", (1, 4, 2, 4), 200),
     "buffered": ("Step_buffered.cfg", "buffered subscription channels x two dispatch workers x subscriber pauses x Stop / "
                  "parent cancel / Wait: edge cover per configuration", (1, 4), 350),
     "window": ("Step_window.cfg", "Stop / parent cancel while the dispatcher is held between its emptiness check and its "
